@@ -333,6 +333,8 @@ fn ct_entry_p256_sign(c: &mut Ctx) {
     c.emit(&sk.to_public_key().encode_compressed());
     c.emit(&sk.sign_hash(&hv, &extra));
     c.emit(&sk.encode());
+    // decoding a (valid) private key is documented as constant-time
+    if let Some(k2) = crrl::p256::PrivateKey::decode(&sk.encode()) { c.emit(&k2.encode()); }
 }
 #[inline(never)]
 fn ct_entry_secp256k1_sign(c: &mut Ctx) {
@@ -343,6 +345,7 @@ fn ct_entry_secp256k1_sign(c: &mut Ctx) {
     c.emit(&sk.to_public_key().encode_compressed());
     c.emit(&sk.sign_hash(&hv, &extra));
     c.emit(&sk.encode());
+    if let Some(k2) = crrl::secp256k1::PrivateKey::decode(&sk.encode()) { c.emit(&k2.encode()); }
 }
 macro_rules! schnorr_entry {
     ($fname:ident, $m:ident) => {
@@ -359,6 +362,7 @@ macro_rules! schnorr_entry {
             c.emit(&sk.sign("", &data));
             c.emit(&sk.sign_seeded(&seed, "sha256", &data[..n.min(32)]));
             c.emit(&sk.encode());
+            if let Some(k2) = crrl::$m::PrivateKey::decode(&sk.encode()) { c.emit(&k2.encode()); }
             // ECDH with a valid, an invalid and a neutral peer key (public values)
             let peer = crrl::$m::Point::mulgen(&crrl::$m::Scalar::decode_reduce(&c.public(32))).encode();
             let (k, st) = sk.ECDH(&peer);
@@ -444,6 +448,8 @@ macro_rules! frost_entry {
             let _ = n1;
             c.emit(&sk.sign_seeded(&[1, 2], &msg).encode());
             c.emit(&shares[2].encode());
+            // wire decoders of secret objects
+            if let Some(k2) = GroupPrivateKey::decode(&sk.encode()) { c.emit(&k2.encode()); }
         }
     };
 }
